@@ -8,8 +8,8 @@ from vlib import core, gen
 PROP = "C03"
 META = {
     "technique": "Coq proof: integer arithmetic with explicit uint32/uint64 wraps over an executable model of createBufferManager/mappingBufferManager/create*/mapping* queue code, induction over the (size, percent) list; tie: generated constants, per-side field offsets, percent literals and queue half indices + differential execution of the real functions on generated configurations",
-    "level_text": "Theorems C03_buffers_partial / C03_peer_view_partial / C03_initial_chain / C03_queues_partial hold for every pair list, every percentage, every initial memory content and every mapping length below 4 GiB - 36 B (queues: 24+12*cap < 2^32); the full statements are kept and refuted by computed 4 GiB witnesses (C03_*_refuted). The model is tied to /repo by regenerated constants/offsets (a creator/mapper offset mismatch breaks the proof) and by running the real functions on hundreds of configurations (heap bytes, /dev/shm files, memfds) whose outcome class and class/queue geometry must equal the model's; an independent oracle checks disjointness, bounds, header placement, peer equality, the initial free chain and queue cross-wiring on the Go structures of every case.",
-    "level_note": "Trusted: coqc kernel; cell-granular memory (aligned 4-byte header words); offset argument 0 (all callers); amd64 branch of mappingQueueFromBytes; mmap/ftruncate/memfd semantics of the kernel; configurations are sampled. Guards forced by the proofs (4 GiB mappings / >=357 913 940-entry queues / >=65 536 classes) are degenerate and reported as findings, not proved safe.",
+    "level_text": "Queues: C03_queues / C03_queues_memfd hold in full (every uint32 capacity, both back-ends, cross-wiring over the generated half indices) since /repo 97d22d3. Buffers and peer view: C03_buffers_config / C03_peer_view_config hold for every configuration VerifyConfig accepts (capacity < 2^32, sizes <= capacity, percent sum = 100 in int) up to the last byte below 4 GiB, under two hypotheses the code does not enforce (size+20 < 2^32 - refuted on accepted input and listed as known finding C03:slice-size-plus-header-wraps; list headers fit); C03_buffers_partial / C03_peer_view_partial hold for ARBITRARY uint32 percentages, any pair list and any initial memory below 4 GiB - 36 B; the unrestricted statements are kept and refuted by computed witnesses. C03_initial_chain: the free chain visits exactly the slots. The model is tied to /repo by regenerated constants/offsets/percent literals/half indices (a creator/mapper mismatch breaks the proof at coqc time) and by running the real functions on hundreds of configurations (heap bytes, /dev/shm files, memfds, lazily backed 4 GiB mappings) whose outcome class and class/queue geometry must equal the model's; an independent oracle checks disjointness, bounds, header placement, peer equality, the initial free chain and queue cross-wiring on the Go structures of every case.",
+    "level_note": "Trusted: coqc kernel; cell-granular memory (aligned 4-byte header words); offset argument 0 (all callers); amd64 branch of mappingQueueFromBytes; mmap/ftruncate/memfd semantics of the kernel; configurations are sampled; queue capacities beyond 200000 on the real code: three capacities above 2^32/12 on lazily backed anonymous mappings (put/pop at the last element), the rest only against memory that is too short. Not covered by a theorem: accepted configurations with a capacity within 36 bytes of 4 GiB AND more than 119 million pairs.",
 }
 
 
@@ -54,7 +54,7 @@ WHAT = {1: "create outcome class (Ok/Err/Panic) differs from the model", 2: "cla
 def eval_cases(cases, tag):
     """cases: harness records. Returns list of (case, code)."""
     bad = []
-    bs = [c for c in cases if c["kind"].startswith("bm")]
+    bs = [c for c in cases if c["kind"].startswith("bm") and not c.get("skipped")]
     qs = [c for c in cases if c["kind"].startswith("q") and not c.get("skipped")]
     for (lst, ty, conv, fn) in ((bs, "bcase", bcase_to_coq, "mismatches_b"), (qs, "qcase", qcase_to_coq, "mismatches_q")):
         SH = 400
@@ -100,12 +100,12 @@ def run_harness(n, seed, tag):
     return cases, None
 
 
-# behaviours outside the proved guards that were reproduced on the real code with inputs VerifyConfig accepts
-# (QueueCap is not bounded by VerifyConfig): stable signatures for known_findings.json
+# behaviours outside the proved guards that were reproduced on the real code with inputs VerifyConfig accepts:
+# message -> stable signature for known_findings.json.  (The three queue-capacity-wrap entries are `fixed`
+# since /repo 97d22d3 and the harness now checks the repaired behaviour as part of the property.)
 DEGEN_SIG = {
-    "createQueueFromBytes panics when 24+12*cap wraps in uint32": "C03:queue-cap-wrap-slice-bounds-panic",
-    "queue: the ring does not hold cap elements when 24+12*cap wraps in uint32": "C03:queue-cap-wrap-short-ring",
-    "queue: put panics on a fresh queue when 24+12*cap wraps in uint32": "C03:queue-cap-wrap-first-put-panics",
+    "createBufferManager panics on a configuration VerifyConfig accepts: Size + bufferHeaderSize wraps in uint32":
+        "C03:slice-size-plus-header-wraps",
 }
 
 
@@ -188,10 +188,9 @@ def check(run):
         "slots_total": sum(x["cap"] for c in cases for x in (c.get("cclasses") or [])),
     })
     run.assumptions += [
-        "mapping shorter than 4 GiB - 36 B (forced guard; Config.ShareMemoryBufferCap is a uint32, the last 36 bytes below 4 GiB are not covered)",
-        "24 + 12*queueCap < 2^32 (forced guard; refuted beyond: ring shorter than cap or slice-bounds panic)",
-        "fewer than 65536 classes (the list count is a uint16; VerifyConfig's sum=100 rule allows at most 100)",
-        "buffer-manager offset argument 0 (every caller); amd64 branch of mappingQueueFromBytes",
+        "C03_buffers_config: size + 20 < 2^32 for every pair (NOT enforced by the code; refuted on accepted input, known finding C03:slice-size-plus-header-wraps) and 36*#pairs + 8 <= capacity (VerifyConfig does not bound the number of pairs)",
+        "C03_buffers_partial / C03_peer_view_partial (arbitrary percentages): mapping shorter than 4 GiB - 36 B; fewer than 65536 classes for the peer view",
+        "buffer-manager offset argument 0 (every caller); amd64 branch of mappingQueueFromBytes; mapping sizes are 64-bit ints",
         "memory is cell-granular in the model: header fields are aligned 4-byte words (checked against the generated offsets)"]
 
     def search():
